@@ -12,7 +12,7 @@ inductive Fr where
   | deliver (tag : Nat)          -- an event / reply delivery to this connection
   | ack (tag : Nat)
   | pub                          -- a successor event, an RPC request or a notification is handed to the broker
-  | rec                          -- the terminal record is written
+  | recw                         -- the terminal record is written
   deriving Repr, DecidableEq
 
 structure Ledger where
@@ -27,7 +27,7 @@ def Ledger.step (l : Ledger) : Fr → Ledger
     if l.unacked.contains t then { l with unacked := l.unacked.erase t, acked := t :: l.acked }
     else { l with bad := true }
   | .pub => l
-  | .rec => l
+  | .recw => l
 
 def Ledger.run (fs : List Fr) : Ledger := fs.foldl Ledger.step {}
 
@@ -37,7 +37,7 @@ def isAck : Fr → Bool
 
 def isOut : Fr → Bool
   | .pub => true
-  | .rec => true
+  | .recw => true
   | _ => false
 
 /-- one handler step is ordered when no publish / record write follows an acknowledgement -/
